@@ -110,8 +110,59 @@ class Contract:
 
     def replay(self, conc):
         """run the REAL function on concrete inputs; return (holds, detail).
-        None means no concrete replay is available for this contract."""
-        return None
+        None means no concrete replay is available for this contract.
+        Default: if the contract defines real(inp) (a call of the real function),
+        evaluate the same ensures/on_raise clauses on its concrete outcome."""
+        if not hasattr(self, 'real'):
+            return None
+        inp = revive(conc)
+        try:
+            res = self.real(inp)
+        except Exception as e:     # the real code raised
+            exc = type(e).__name__
+            checks = self.on_raise(inp, exc, None)
+            bad = [nm for nm, f in checks if not _truth(f)]
+            return (not bad), dict(raised=exc, message=str(e)[:200], failed=bad)
+        res = normalize(res)
+        checks = self.ensures(inp, res, None)
+        bad = [nm for nm, f in checks if not nm.startswith('lemma:') and not _truth(f)]
+        return (not bad), dict(result=jsonable(res), failed=bad)
+
+
+def _truth(f):
+    if is_sym(f):
+        f = z3.simplify(f)
+        return z3.is_true(f)
+    return bool(f)
+
+
+def revive(x):
+    """stored model -> contract inputs (objects get .attrs again)"""
+    if isinstance(x, dict):
+        if '__obj__' in x:
+            return Obj(None, {k: revive(v) for k, v in x.items() if k != '__obj__'}, tag=x['__obj__'])
+        return {k: revive(v) for k, v in x.items()}
+    if isinstance(x, list):
+        return tuple(revive(v) for v in x)
+    if isinstance(x, float):
+        return Fraction(x)
+    return x
+
+
+def normalize(r):
+    if isinstance(r, float):
+        return Fraction(r)
+    if isinstance(r, (tuple, list)):
+        return tuple(normalize(x) for x in r)
+    try:
+        import numpy as np
+        if isinstance(r, np.integer):
+            return int(r)
+        if isinstance(r, np.floating):
+            return Fraction(float(r))
+    except ImportError:
+        pass
+    return r
 
 
 def model_value(model, v):
